@@ -28,6 +28,9 @@ def deletes_only_on_delete_arms(ctx, F, rid):
     seen_arms = set()
     for b, bb, c in sites:
         t = b.blocks[bb]['term']
+        if is_staging_name(F, flow_of(b), t['args'][0]):
+            ctx.ok(rid, '%s:%s:staging-cleanup' % (b.path.split('::{')[0].split('::')[-1], c.split('::')[-1]), 'removal of a reserved staging name (<path>.copia-tmp), not of a version', term_loc(b, bb))
+            continue
         if b.path != APPLY:
             # staging cleanup of a reserved name is not a version removal
             ctx.bad(rid, '%s:%s' % (b.path, c), 'file removal in the bisync call graph outside apply\'s Delete arms', term_loc(b, bb))
@@ -173,7 +176,9 @@ def side_rules(ctx, bs, copies, direction=False):
     # Propagate arms
     for arm, s, d in (('PropagateAtoB', 'a', 'b'), ('PropagateBtoA', 'b', 'a')):
         cs = [c for c in copies if arm in bs.arm_of(c[0])]
-        ok = len(cs) == 1 and cs[0][2][:2] == ('live', s) and cs[0][3][:2] == ('live', d)
+        # (several call sites are fine when they are alternatives of one delivery - file vs symlink, checked vs unchecked -
+        # as long as every one of them goes the right way)
+        ok = len(cs) >= 1 and all(c[2][:2] == ('live', s) and c[3][:2] == ('live', d) for c in cs)
         ctx.check(ok, 'C02.R4', 'apply:%s:direction' % arm, 'copy root_%s/rel -> root_%s/rel' % (s, d),
                   '%s does not copy exactly root_%s.join(rel) onto root_%s.join(rel): %s' % (arm, s, d, [(c[2][:2], c[3][:2]) for c in cs]),
                   term_loc(A, cs[0][0]) if cs else loc(A, A.lo))
@@ -207,7 +212,7 @@ def side_rules(ctx, bs, copies, direction=False):
                 both = [c for c in bs.copy_sites() if 'BothChanged' in bs.arm_of(c[0])]
             over = [c for c in both if c[3][0] == 'live']
             pres = [c for c in both if c[3][0] == 'derived']
-            if len(over) != 1 or over[0][2][0] != 'live' or over[0][2][1] not in ('a', 'b') or over[0][3][1] not in ('a', 'b') or over[0][2][1] == over[0][3][1]:
+            if len({(c[2][:2], c[3][:2]) for c in over}) != 1 or over[0][2][0] != 'live' or over[0][2][1] not in ('a', 'b') or over[0][3][1] not in ('a', 'b') or over[0][2][1] == over[0][3][1]:
                 ok_t, detail = False, 'on the %s edge the overwrite is not one copy root_X/rel -> root_Y/rel (%s)' % (label, [(c[2][:2], c[3][:2]) for c in over])
                 continue
             X, Y = over[0][2][1], over[0][3][1]
